@@ -81,7 +81,7 @@ async def scenario(inp):
                 else:
                     # nothing else was created
                     everything = await remote_tree(c, pathlib.PurePosixPath("/"))
-                    extra = [k for k in everything if not (("/" + k + "/").startswith(str(D).rstrip("/") + "/") or (str(D) + "/").startswith("/" + k + "/"))]
+                    extra = [k for k in everything if not (("/" + k + "/").startswith(str(D).rstrip("/") + "/") or (str(D) + "/").startswith("/" + k + "/") or k == cwd)]
                     if extra:
                         bad.append("upload/creates-nothing-else")
             elif kind == "download":
